@@ -283,6 +283,21 @@ func searchStrKey(p *binary.BinaryProtocol, key string, keyType proto.Type, mapF
 	return start, nil
 }
 
+// errCodeOf returns the error code of err without assuming its dynamic type: the search functions
+// return generic.Node errors as well as meta.Error and plain errors of proto/binary.
+func errCodeOf(err error) meta.ErrCode {
+	switch e := err.(type) {
+	case Node:
+		return e.ErrCode()
+	case Value:
+		return e.ErrCode()
+	case meta.Error:
+		return e.Code
+	default:
+		return meta.ErrRead
+	}
+}
+
 func (self Value) GetByPath(pathes ...Path) Value {
 	value, _ := self.getByPath(pathes...)
 	return value
@@ -410,8 +425,7 @@ func (self Value) getByPath(pathes ...Path) (Value, []int) {
 			if i == len(pathes)-1 && err == errNotFound {
 				return Value{errNotFoundLast(unsafe.Pointer(uintptr(self.v)+uintptr(start)), tt), nil, false}, address
 			}
-			en := err.(Node)
-			return errValue(en.ErrCode().Behavior(), "invalid value node.", err), address
+			return errValue(errCodeOf(err).Behavior(), "invalid value node.", err), address
 		}
 		// if not the last one, it must be a complex node, so need to skip tag
 		if i != len(pathes)-1 {
@@ -428,16 +442,14 @@ func (self Value) getByPath(pathes ...Path) (Value, []int) {
 		kt = desc.Key().Type()
 		et = desc.Elem().Type()
 		if s, err := p.SkipAllElementsOf(desc); err != nil {
-			en := err.(Node)
-			return errValue(en.ErrCode().Behavior(), "invalid map node.", err), address
+			return errValue(errCodeOf(err).Behavior(), "invalid map node.", err), address
 		} else {
 			size = s
 		}
 	case proto.LIST:
 		et = desc.Elem().Type()
 		if s, err := p.SkipAllElementsOf(desc); err != nil {
-			en := err.(Node)
-			return errValue(en.ErrCode().Behavior(), "invalid list node.", err), address
+			return errValue(errCodeOf(err).Behavior(), "invalid list node.", err), address
 		} else {
 			size = s
 		}
